@@ -74,6 +74,8 @@ class patched:
 
     def __enter__(self):
         for k, v in self.kw.items():
+            if not hasattr(self.mod, k):
+                continue              # the module no longer imports that name: nothing to observe there
             self.old[k] = getattr(self.mod, k)
             setattr(self.mod, k, v)
 
@@ -121,15 +123,20 @@ def fixed_proto(case):
         proto.add_edge(e[0], e[1], **{k: v for k, v in a})
     for k, v in case.get('gattr', []):
         proto.graph[k] = v
+    if case.get('frozen'):
+        networkx.freeze(proto)        # read-only in structure only: a copy of it is an ordinary, independent network
     return proto
 
 
 def spoil(g, pn, pe):
     """change a copy in every way a user can: structure, new attributes, new values for existing attribute keys"""
-    g.add_node(999)
-    g.add_edge(999, pn[0])
-    if pe:
-        g.remove_edge(*pe[0])
+    try:
+        g.add_node(999)
+        g.add_edge(999, pn[0])
+        if pe:
+            g.remove_edge(*pe[0])
+    except networkx.NetworkXError:
+        pass             # what was handed out is frozen (not a copy): the attribute changes below still go through
     g.nodes[pn[0]]['x'] = 1
     for n in list(g.nodes()):
         for k in list(g.nodes[n]):
@@ -219,6 +226,7 @@ class H(Harness):
              'limit': rnd.choice([None, 0, 1, 2, 3]), 'ops': [[rnd.choice(['gen', 'next'])] for _ in range(rnd.randrange(1, 6))]}
         self._gen_fixed_attrs(rnd, c)
         c['mutate_early'] = rnd.random() < 0.5       # the first copy is changed BEFORE the later ones are asked for
+        c['frozen'] = rnd.random() < 0.25            # a prototype frozen with networkx.freeze
         return c
 
     def _gen_fixed_attrs(self, rnd, c):
@@ -513,7 +521,7 @@ class H(Harness):
         from epydemic import CorePeripheryNetwork as CP
         orc = install(Oracle(seed=case['seed'], script={'random': case['rs']}))
         rec = {'gnp': [], 'comps': [], 'orders': []}
-        real_gnp, real_cc, real_conv = CM.fast_gnp_random_graph, CM.connected_components, CM.convert_node_labels_to_integers
+        real_gnp, real_cc, real_conv = (getattr(CM, k, None) for k in ('fast_gnp_random_graph', 'connected_components', 'convert_node_labels_to_integers'))
 
         def conv(g, *a, **kw):
             rec['orders'].append(list(g.nodes()))
@@ -551,7 +559,7 @@ class H(Harness):
         from epydemic import ModularNetwork as MN
         orc = install(Oracle(seed=case['seed']))
         rec = {'gnp': [], 'comps': [], 'orders': []}
-        real_gnp, real_cc, real_conv = MM.fast_gnp_random_graph, MM.connected_components, MM.convert_node_labels_to_integers
+        real_gnp, real_cc, real_conv = (getattr(MM, k, None) for k in ('fast_gnp_random_graph', 'connected_components', 'convert_node_labels_to_integers'))
 
         def conv(g, *a, **kw):
             rec['orders'].append(list(g.nodes()))
